@@ -379,6 +379,24 @@ Proof.
     rewrite H2. split; [|exact I]. lra.
 Qed.
 
+(* non-vacuity of the warping theorems: two blocks on the non-contiguous ranges (0,1) and (2,3) are
+   pairwise disjoint, and coordinate 2 of a 3-vector is transformed by the second block only *)
+Example c08_warp_example :
+  let bs := [mkW NumR 0 1 [2] [3]; mkW NumR 2 3 [/ 2] [4]] in
+  pairwise_disjoint NumR bs /\
+  forall jit x0 x1 x2 : R,
+    nth 2 (apply_warpings NumR jit bs [x0; x1; x2]) 0 = kuma NumR jit (/ 2) 4 x2 /\
+    nth 1 (apply_warpings NumR jit bs [x0; x1; x2]) 0 = x1.
+Proof.
+  cbv zeta.
+  assert (H : pairwise_disjoint NumR [mkW NumR 0 1 [2] [3]; mkW NumR 2 3 [/ 2] [4]]).
+  { simpl. split; [|split; [constructor | exact I]]. constructor; [|constructor].
+    intros k. unfold in_block. simpl. destruct k as [|[|[|k]]]; reflexivity. }
+  split; [exact H|]. intros jit x0 x1 x2. split.
+  - rewrite (c08_warp_blocks_compose NumR jit _ [x0; x1; x2] 2 0 H) by (simpl; lia). reflexivity.
+  - rewrite (c08_warp_blocks_compose NumR jit _ [x0; x1; x2] 1 0 H) by (simpl; lia). reflexivity.
+Qed.
+
 (* ---- the likelihood at full strength.  [det_list M] = MathComp's determinant of the matrix with the
    entries of the list matrix M (proofs/GPLinDetProofs.v); c08_det_list_2x2 shows it is the usual one.
    Kept last: the MathComp imports change notations. *)
